@@ -122,10 +122,10 @@ type fnCtx struct {
 	entry     factSet
 	entryDone bool
 	entryBusy bool
-	fn     *ssa.Function
-	hold   map[*ssa.BasicBlock]factSet
-	busy   map[*ssa.BasicBlock]bool
-	stores map[ssa.Value]int
+	fn        *ssa.Function
+	hold      map[*ssa.BasicBlock]factSet
+	busy      map[*ssa.BasicBlock]bool
+	stores    map[ssa.Value]int
 }
 
 func newEngine(w *World) *Engine {
@@ -1570,7 +1570,6 @@ func structField(t types.Type, i int) *types.Var {
 	}
 	return nil
 }
-
 
 // condAtom: a boolean value known to be true (pol) or false (!pol) whenever control is in some block.
 type condAtom struct {
